@@ -58,6 +58,7 @@ type fnPending struct {
 }
 
 type fakeNet struct {
+	tcpServerSaysGarbage bool // dialed TCP connections deliver a non-TLS banner
 	mu        sync.Mutex
 	ifMu      sync.RWMutex // guards ifaces (may change at run time)
 	ifaces    []fnIface
@@ -197,6 +198,10 @@ func (f *fakeNet) DialTCP(_ string, _, raddr *net.TCPAddr) (transport.TCPConn, e
 	defer f.mu.Unlock()
 	f.nextPort++
 	s := f.newSock("tcp-dial", netip.AddrPortFrom(netip.MustParseAddr("10.0.0.1"), uint16(f.nextPort))) //nolint:gosec
+	if f.tcpServerSaysGarbage {
+		// the server is not speaking TLS: a client handshake on this connection fails at once
+		s.inbound <- fnDgram{data: []byte("HTTP/1.1 400 Bad Request\r\n\r\n")}
+	}
 
 	return &fnTCPConn{fnSock: s, remote: raddr}, nil
 }
